@@ -59,6 +59,30 @@ add("C11", "Hypothesis-generated budgets / episode scripts / continuation calls 
     "recorded findings: batch collectors overshoot by less than one collection, zero-budget UnboundLocalError in the schedulers.",
     "DESIGN.md §5 C11")
 
+add("C02", "Model-based testing: Hypothesis-generated add/sample/sweep/len/select-task op lists vs an independent list-based FIFO reference model (stub generators enumerate every live index); atheris campaign in the thorough tier",
+    "Generated operation sequences over ReplayBuffer, LAP, PER and the multi-task wrapper (capacities 1-12, six key/dtype/shape schemas); "
+    "after every op the real buffer is compared with a list model: length, slot contents as bytes of the storage dtype, every sampled row "
+    "decoding to exactly one live transition in all fields, task isolation, invalid select_task rejected without effect.",
+    "In-range values only; priorities are not updated here (C08); the slot-layout clause (i mod N) and the stub sweeps are tied to the "
+    "documented ring layout.",
+    "DESIGN.md §5 C02")
+add("C04", "Model-based testing: Hypothesis-generated normal/terminated/truncated step histories with tagged observations; stub generators make one sample_batch return every admissible start; each window checked against the episode/time tags",
+    "Generated histories over the uniform and prioritized subtrajectory buffers (storage horizon 1-5, capacity horizon+1..+10, wrap-around, "
+    "back-to-back one-step episodes); every admissible start index is enumerated through a stub generator after (in 3 of 4 cases) every single "
+    "addition, and each window is checked on its prefix up to the first terminated row for contiguity, single episode, alignment of all "
+    "fields, no truncated step, no stale or unwritten slot; the reduced view must equal the projection of the intermediate view.",
+    "Clauses applied to the prefix up to and including the first terminated row (DESIGN interpretation); completeness of the start set is "
+    "not demanded; default keys/dtypes (the MR.Q configuration).",
+    "DESIGN.md §5 C04")
+add("C06", "Hypothesis-generated parameter trees / tau and training histories; snapshot recorder (logger callbacks + env on_step) vs the Polyak / hard-copy recurrence applied to the previous snapshot",
+    "Function level: soft/hard updates over ten module kinds, tau incl. 0 and 1, compared leaf by leaf with tau*online+(1-tau)*target "
+    "(<= 2 ulp, exact at 0/1), online unchanged, no shared variables. History level: Nature-DQN, DDQN, PER, DDPG, TD3, TD3+LAP, SAC, TD7 "
+    "(also _train_step directly) and MR.Q with generated delays/tau/warm-up: every byte change of a target must equal the rule applied to "
+    "the previous target and the online network of that moment, changes only on the documented cadence, none before learning starts; "
+    "target=None twin runs bit-equal and storage-disjoint.",
+    "Delays 1-7, <= 100 steps; cadence phase-free except where a phase is documented (DESIGN §11); magnitudes capped at 1e30.",
+    "DESIGN.md §5 C06, §11")
+
 NOT_APPLICABLE = {}
 
 
